@@ -780,5 +780,124 @@ theorem facility_name_rejected_counterexample :
   have := ((facility_name_iff _ hL).1).mp h
   rw [List.length_replicate] at this; omega
 
+/-! ## One kept sliver object: refused calls, histories of setter calls, and decoding what it then encodes -/
+
+/-- the kept sliver holds a name of its class's pattern and no boot script or one under the limit -/
+def SliverOk (s : Sliver) : Prop :=
+  (∃ n r, s.name = .str n ∧ nameRe.lookup s.cls = some r ∧ r.L n) ∧
+  (s.boot = .none ∨ ∃ b, s.boot = .str b ∧ b.length < bootScriptSize)
+
+theorem setBoot_ok {v : Val} {b : Option (List Char)} (h : setBoot v = .ok b) :
+    v = optVal b ∧ (∀ x, b = some x → x.length < bootScriptSize) := by
+  cases v with
+  | none => simp only [setBoot, pure, Except.pure, Except.ok.injEq] at h; subst h; exact ⟨rfl, fun x hx => by cases hx⟩
+  | other => simp [setBoot, throw, throwThe, MonadExceptOf.throw] at h
+  | list xs => simp [setBoot, throw, throwThe, MonadExceptOf.throw] at h
+  | str s =>
+    simp only [setBoot, bootOk] at h
+    by_cases hs : s.length < bootScriptSize
+    · simp only [hs, decide_true, if_true, pure, Except.pure, Except.ok.injEq] at h
+      subst h; exact ⟨rfl, fun x hx => by cases hx; exact hs⟩
+    · simp [hs, throw, throwThe, MonadExceptOf.throw] at h
+
+/-- The code as it is checks before it writes, and its decoder hands every member word on as it is (both lists come from
+behavioural probes of the running classes, regenerated every run). -/
+theorem repo_kept_clean : repoKept.writeFirst = [] ∧ repoKept.decodeAlters = [] := by decide
+
+/-- A refused setter call - whatever the value, whichever setter - leaves the kept object exactly as it was. -/
+theorem refused_call_changes_nothing (cfg : KeptCfg) (hw : cfg.writeFirst = []) (s : Sliver) :
+    (∀ v e, setName s.cls v = .error e → stepSliver cfg s (.name v) = s) ∧
+    (∀ v e, setBoot v = .error e → stepSliver cfg s (.boot v) = s) := by
+  constructor
+  · intro v e h; simp [stepSliver, h, hw]
+  · intro v e h; simp [stepSliver, h, hw]
+
+theorem stepSliver_ok (cfg : KeptCfg) (hw : cfg.writeFirst = []) (s : Sliver) (op : SetOp) (h : SliverOk s) :
+    (stepSliver cfg s op).cls = s.cls ∧ SliverOk (stepSliver cfg s op) := by
+  obtain ⟨⟨n, r, hn, hr, hL⟩, hb⟩ := h
+  cases op with
+  | name v =>
+    cases hv : setName s.cls v with
+    | error e =>
+      have e1 : stepSliver cfg s (.name v) = s := by simp [stepSliver, hv, hw]
+      rw [e1]; exact ⟨rfl, ⟨n, r, hn, hr, hL⟩, hb⟩
+    | ok m =>
+      have := setName_ok anchors_full.2.2.2 hv
+      simp only [stepSliver, hv]
+      exact ⟨trivial, ⟨m, r, rfl, hr, this.2 r hr⟩, hb⟩
+  | boot v =>
+    cases hv : setBoot v with
+    | error e =>
+      have e1 : stepSliver cfg s (.boot v) = s := by simp [stepSliver, hv, hw]
+      rw [e1]; exact ⟨rfl, ⟨n, r, hn, hr, hL⟩, hb⟩
+    | ok b =>
+      have := setBoot_ok hv
+      simp only [stepSliver, hv]
+      refine ⟨trivial, ⟨n, r, hn, hr, hL⟩, ?_⟩
+      cases b with
+      | none => exact Or.inl rfl
+      | some x => exact Or.inr ⟨x, rfl, this.2 x rfl⟩
+
+/-- Whatever history of set_name / set_boot_script calls (any values, accepted or refused, through the setter, set_property or
+set_properties) is applied to one kept sliver that holds members, it holds members afterwards. -/
+theorem kept_sliver_invariant (cfg : KeptCfg) (hw : cfg.writeFirst = []) (ops : List SetOp) :
+    ∀ s : Sliver, SliverOk s → (runSliver cfg s ops).cls = s.cls ∧ SliverOk (runSliver cfg s ops) := by
+  induction ops with
+  | nil => intro s h; exact ⟨rfl, h⟩
+  | cons op t ih =>
+    intro s h
+    obtain ⟨h1, h2⟩ := stepSliver_ok cfg hw s op h
+    have := ih (stepSliver cfg s op) h2
+    simp only [runSliver, List.foldl] at this ⊢
+    exact ⟨this.1.trans h1, this.2⟩
+
+/-- A sliver that holds members is decoded from its own encoding to exactly itself - for EVERY member, including the
+words a storage layer uses as placeholders ("None", "null", ...). -/
+theorem kept_sliver_redecodes (cfg : KeptCfg) (hd : cfg.decodeAlters = []) (s : Sliver) (h : SliverOk s) : reDecode cfg s = .ok s := by
+  obtain ⟨⟨n, r, hn, hr, hL⟩, hb⟩ := h
+  have hname : setName s.cls (.str n) = .ok n := (name_accept_iff s.cls r hr n).mpr hL
+  cases s with
+  | mk cls name boot =>
+    simp only at hn hr hb hname
+    subst hn
+    rcases hb with hb | ⟨b, hb, hlen⟩
+    · subst hb
+      simp [reDecode, decodeText, hd, hname, setBoot, optVal, pure, Except.pure]
+    · subst hb
+      have hboot : setBoot (.str b) = .ok (some b) := (boot_accept_iff b).mpr hlen
+      simp [reDecode, decodeText, hd, hname, hboot, optVal, pure, Except.pure]
+
+/-- ... and so is the object left by any history on the code as it is. -/
+theorem history_then_redecode (s : Sliver) (h : SliverOk s) (ops : List SetOp) :
+    reDecode repoKept (runSliver repoKept s ops) = .ok (runSliver repoKept s ops) :=
+  kept_sliver_redecodes repoKept repo_kept_clean.2 _ (kept_sliver_invariant repoKept repo_kept_clean.1 ops s h).2
+
+example : SliverOk ⟨"NodeSliver", .str ['N','o','n','e'], .str ['N','o','n','e']⟩ := by
+  refine ⟨⟨_, nameRe_NodeSliver, rfl, rfl, (accepts_full_iff _ _).mp (by decide)⟩, Or.inr ⟨_, rfl, by decide⟩⟩
+
+/-- Why `writeFirst = []` is needed: with a set_boot_script that assigns before it checks, one refused call leaves a script of
+the limit's length in the kept object, and the object can no longer be decoded from its own encoding. -/
+theorem write_first_counterexample (b : List Char) (hb : ¬ b.length < bootScriptSize) :
+    (runSliver ⟨["set_boot_script"], []⟩ ⟨"NodeSliver", .str ['n','1'], .none⟩ [.boot (.str ['o','k']), .boot (.str b)]).boot = .str b ∧
+    reDecode ⟨["set_boot_script"], []⟩ (runSliver ⟨["set_boot_script"], []⟩ ⟨"NodeSliver", .str ['n','1'], .none⟩
+        [.boot (.str ['o','k']), .boot (.str b)]) = .error "assertion" := by
+  have hs : setBoot (.str b) = .error "assertion" := by simp [setBoot, bootOk, hb, throw, throwThe, MonadExceptOf.throw]
+  have hk : setBoot (.str ['o','k']) = .ok (some ['o','k']) := by rfl
+  have hn : setName "NodeSliver" (.str ['n','1']) = .ok ['n','1'] := by rfl
+  have h1 : runSliver ⟨["set_boot_script"], []⟩ ⟨"NodeSliver", .str ['n','1'], .none⟩ [.boot (.str ['o','k']), .boot (.str b)]
+      = ⟨"NodeSliver", .str ['n','1'], .str b⟩ := by
+    simp [runSliver, stepSliver, hs, hk, optVal]
+  rw [h1]
+  refine ⟨rfl, ?_⟩
+  simp [reDecode, decodeText, hn, hs]
+
+example : ¬ (List.replicate bootScriptSize 'x').length < bootScriptSize := by simp
+
+/-- Why `decodeAlters = []` is needed: when the decoder takes the word None for "no value", a sliver whose accepted name is
+None cannot be decoded, and an accepted boot script None is lost. -/
+theorem decode_alters_counterexample :
+    reDecode ⟨[], ["None"]⟩ ⟨"NodeSliver", .str ['N','o','n','e'], .none⟩ = .error "type" ∧
+    reDecode ⟨[], ["None"]⟩ ⟨"NodeSliver", .str ['n','1'], .str ['N','o','n','e']⟩ = .ok ⟨"NodeSliver", .str ['n','1'], .none⟩ := by
+  refine ⟨by rfl, by rfl⟩
 
 end FimVerif.C16
